@@ -10,6 +10,8 @@ import (
 	"sort"
 	"strings"
 	"sync"
+	"sync/atomic"
+	"time"
 	"testing"
 
 	"github.com/samsarahq/thunder/federation"
@@ -142,12 +144,77 @@ func strip(x interface{}) string {
 	return jv.Canon(jv.StripKeyRef(y))
 }
 
+func tree(x interface{}) interface{} {
+	b, _ := json.Marshal(x)
+	var y interface{}
+	json.Unmarshal(b, &y)
+	return y
+}
+
+// dropInjected walks the gateway's response along the reference response of the marked
+// query: where the reference has the marker key and no __typename of its own, a __typename in
+// the gateway's object was injected by the planner and is removed. Returns how many.
+func dropInjected(got, ref interface{}) int {
+	n := 0
+	switch r := ref.(type) {
+	case map[string]interface{}:
+		g, ok := got.(map[string]interface{})
+		if !ok {
+			return 0
+		}
+		if _, marked := r["__inj"]; marked {
+			if _, own := r["__typename"]; !own {
+				if _, has := g["__typename"]; has {
+					delete(g, "__typename")
+					n++
+				}
+			}
+		}
+		for k, rv := range r {
+			if gv, ok := g[k]; ok {
+				n += dropInjected(gv, rv)
+			}
+		}
+	case []interface{}:
+		g, ok := got.([]interface{})
+		if !ok {
+			return 0
+		}
+		for i := range r {
+			if i < len(g) {
+				n += dropInjected(g[i], r[i])
+			}
+		}
+	}
+	return n
+}
+
+// sameModuloInjected compares the gateway's answer with the monolith's, accepting a
+// __typename that the planner injected under a union (marked by injRef).
+func sameModuloInjected(got interface{}, wantS string, injRef interface{}) (string, bool, bool) {
+	g := strip(got)
+	if g == wantS {
+		return g, true, false
+	}
+	if injRef != nil {
+		gt, rt := tree(got), tree(injRef)
+		if n := dropInjected(gt, rt); n > 0 && jv.Canon(jv.StripKeyRef(gt)) == wantS {
+			return g, true, true
+		}
+	}
+	return g, false, false
+}
+
 type qstat struct {
 	services map[string]bool
 	requests int
 }
 
-func check(c Case) (stats []qstat, sig string, err error) {
+func check(c Case) (stats []qstat, sig string, err error) { return checkWith(c, true) }
+
+// checkWith: tolerateInjected accepts a __typename the planner added under a union (the
+// listed known finding) and counts it; the pinned case of the finding runs without it.
+func checkWith(c Case, tolerateInjected bool) (stats []qstat, sig string, err error) {
 	mono, err := world.Bind(c.Spec, c.Modes)
 	if err != nil {
 		return nil, "harness-bind", fmt.Errorf("harness: monolith: %v", err)
@@ -183,6 +250,12 @@ func check(c Case) (stats []qstat, sig string, err error) {
 		if ref != wantS {
 			return nil, "harness-mono", fmt.Errorf("harness: monolith differs from reference (C01 matter):\n mono %s\n ref  %s\n%s", wantS, ref, text)
 		}
+		// the same query with `__inj: __typename` in every union selection that has no plain
+		// __typename of its own: marks where the gateway's injected __typename may show up
+		var injRef interface{}
+		if iq := world.InjectUnionTypename(q, c.Spec, "__inj"); iq != nil {
+			injRef = (&world.Ref{S: c.Spec, Q: iq}).Eval()
+		}
 		st := qstat{services: map[string]bool{}}
 		for rep := 0; rep < 3; rep++ {
 			mu.Lock()
@@ -205,7 +278,18 @@ func check(c Case) (stats []qstat, sig string, err error) {
 			if gerr != nil {
 				return nil, "gateway-error", fmt.Errorf("the gateway failed a query the monolith answers: %v\nquery:\n%s\npartition: %v", gerr, text, c.Partition.Fields)
 			}
-			if g := strip(got); g != wantS {
+			ir := injRef
+			if !tolerateInjected {
+				ir = nil
+			}
+			g, same, injected := sameModuloInjected(got, wantS, ir)
+			if injected {
+				rec.Excluded("gateway-injects-typename")
+			}
+			if same {
+				g = wantS
+			}
+			if g != wantS {
 				return nil, "mismatch", fmt.Errorf("gateway result differs from the monolith (run %d):\n gateway  %s\n monolith %s\nquery:\n%s\nvars: %v\npartition: %v keys: %v", rep, g, wantS, text, q.Values, c.Partition.Fields, c.Partition.Keys)
 			}
 			mu.Lock()
@@ -248,7 +332,7 @@ func genCase(t *rapid.T, dirs bool) (Case, []world.Features) {
 	c := Case{Spec: s, Partition: world.GenPartition(t, s), Modes: genModes(t, s)}
 	var feats []world.Features
 	for i := 0; i < 4; i++ {
-		q, f := world.GenQuery(t, s, world.GenOpts{MaxDepth: 4, Directives: dirs, UnionTypenameAlways: true})
+		q, f := world.GenQuery(t, s, world.GenOpts{MaxDepth: 4, Directives: dirs, UnionTypenameAlways: rapid.Bool().Draw(t, "utn"), UncoveredUnion: rapid.Bool().Draw(t, "uncov")})
 		c.Queries = append(c.Queries, q)
 		c.Texts = append(c.Texts, q.Text())
 		feats = append(feats, f)
@@ -334,12 +418,14 @@ func TestConcurrentRefresh(t *testing.T) {
 			t.Fatalf("harness: gateway: %v", err)
 		}
 		wants := make([]string, len(c.Queries))
+		injRefs := make([]interface{}, len(c.Queries))
 		for i, q := range c.Queries {
 			w, err := mono.Run(context.Background(), c.Texts[i], copyVals(q.Values), sched.New("goroutine", 0), false)
 			if err != nil {
 				t.Fatalf("harness: monolith: %v", err)
 			}
 			wants[i] = strip(w)
+			injRefs[i] = (&world.Ref{S: c.Spec, Q: world.InjectUnionTypename(q, c.Spec, "__inj")}).Eval()
 		}
 		stop := make(chan struct{})
 		var wg sync.WaitGroup
@@ -379,7 +465,7 @@ func TestConcurrentRefresh(t *testing.T) {
 					mu.Lock()
 					if err != nil && failure == "" {
 						failure = fmt.Sprintf("gateway failed during refresh: %v\n%s", err, c.Texts[i])
-					} else if err == nil && strip(got) != wants[i] && failure == "" {
+					} else if _, same, _ := sameModuloInjected(got, wants[i], injRefs[i]); err == nil && !same && failure == "" {
 						failure = fmt.Sprintf("gateway result during refresh differs:\n got  %s\n want %s\n%s", strip(got), wants[i], c.Texts[i])
 					}
 					mu.Unlock()
@@ -415,7 +501,7 @@ func TestKnownTypename(t *testing.T) {
 	}
 	q := &world.Query{Sels: []world.Sel{world.Fld("allF1", world.Fld("f3", world.Inl("F1", world.Fld("id")), world.Inl("F2", world.Fld("label")))), world.Fld("allFU", world.Inl("F1", world.Fld("id")))}}
 	c := Case{Spec: s, Partition: part, Modes: world.Modes{}, Queries: []*world.Query{q}, Texts: []string{q.Text()}}
-	_, sig, err := check(c)
+	_, sig, err := checkWith(c, false)
 	if err == nil {
 		return // the finding is gone
 	}
@@ -427,4 +513,85 @@ func TestKnownTypename(t *testing.T) {
 	}
 	p := rec.Violate("TestKnownTypename", c, sig+": "+err.Error())
 	t.Fatalf("%s: %v (replay %s)", sig, err, p)
+}
+
+// TestSiblingHops: several sub-queries hop away from the same (long) list of objects to
+// different services. The gateway stitches the answer of one sub-query into those objects
+// while it may still be reading them for the next one; results must equal the monolith and,
+// in the -race binary, no unsynchronised access may be reported.
+func TestSiblingHops(t *testing.T) {
+	s := world.GenFedSpecFixed()
+	for i := range s.Objects[0].Fields {
+		if s.Objects[0].Fields[i].Name == "allF1" {
+			s.Objects[0].Fields[i].MaxLen = 6
+		}
+	}
+	part := &world.FedPartition{Services: []string{"s1", "s2", "s3"}, Fields: map[string][]string{}, Keys: map[string]string{}}
+	for _, o := range s.Objects {
+		for i, f := range o.Fields {
+			svc := "s1"
+			if o.Type != "Query" {
+				svc = []string{"s2", "s3", "s2", "s3"}[i%4]
+			}
+			part.Fields[o.Type+"."+f.Name] = []string{svc}
+		}
+	}
+	for _, svc := range part.Services {
+		for _, o := range []string{"F1", "F2", "F3"} {
+			part.Keys[svc+"/"+o] = "id"
+		}
+	}
+	F := world.Fld
+	q := &world.Query{Sels: []world.Sel{F("allF1", F("id"), F("f1", F("id")), F("f2", F("id")), F("f3", F("__typename"), world.Inl("F1", F("id"))))}}
+	c := Case{Spec: s, Partition: part, Modes: world.Modes{}, Queries: []*world.Query{q}, Texts: []string{q.Text()}}
+	// once through check (sub-query oracle, request log) ...
+	stats, sig, err := check(c)
+	if err != nil {
+		p := rec.Violate("TestSiblingHops", c, sig+": "+err.Error())
+		t.Fatalf("%s: %v (replay %s)", sig, err, p)
+	}
+	rec.Case("sibling-hops-logged", len(stats) > 0 && stats[0].requests >= 3, "sibling-hops")
+	// ... and several times without the recording client, whose lock orders the services'
+	// goroutines and would hide unsynchronised access from the race detector
+	mono, err := world.Bind(c.Spec, c.Modes)
+	if err != nil {
+		t.Fatalf("harness: %v", err)
+	}
+	svcs, err := world.BindFed(c.Spec, c.Partition, c.Modes)
+	if err != nil {
+		t.Fatalf("harness: %v", err)
+	}
+	execs := map[string]federation.ExecutorClient{}
+	for _, sv := range svcs {
+		srv, _ := federation.NewServer(sv.Schema)
+		execs[sv.Name] = &federation.DirectExecutorClient{Client: srv}
+	}
+	ctx, cancel := context.WithCancel(context.Background())
+	defer cancel()
+	gw, err := federation.NewExecutor(ctx, execs, &federation.SchemaSyncerConfig{SchemaSyncer: federation.NewIntrospectionSchemaSyncer(ctx, execs, nil)})
+	if err != nil {
+		t.Fatalf("harness: gateway: %v", err)
+	}
+	want, err := mono.Run(context.Background(), q.Text(), map[string]interface{}{}, sched.New("goroutine", 0), false)
+	if err != nil {
+		t.Fatalf("harness: monolith: %v", err)
+	}
+	// hook H7: after a sub-plan has been launched the launching goroutine waits, so that the
+	// sub-plan's answer is stitched in before the next sub-plan's keys are read
+	var yielding int32 = 1
+	federation.VerifYield = func(site string) {
+		if site == "execute.subPlanLaunched" && atomic.LoadInt32(&yielding) == 1 {
+			time.Sleep(3 * time.Millisecond)
+		}
+	}
+	defer atomic.StoreInt32(&yielding, 0)
+	for rep := 0; rep < 15; rep++ {
+		pq, _ := graphql.Parse(q.Text(), map[string]interface{}{})
+		got, _, err := gw.Execute(context.Background(), pq, nil)
+		if err != nil || strip(got) != strip(want) {
+			p := rec.Violate("TestSiblingHops", c, fmt.Sprintf("gateway differs from the monolith: err=%v", err))
+			t.Fatalf("gateway differs from the monolith: %v (replay %s)", err, p)
+		}
+		rec.Case(fmt.Sprintf("sibling-hops-%d", rep), true, "sibling-hops")
+	}
 }
